@@ -323,8 +323,12 @@ class KernelX(Kernel):
         text = unparse(node)
         s = fresh(kind)
         sym = Lin.sym(s)
-        for pat, lo, hi, reason in self.contract.get('float_bounds', []):
+        for entry in self.contract.get('float_bounds', []):
+            pat, lo, hi, reason = entry[:4]
+            guards = entry[4] if len(entry) > 4 else []
             if pat in text:
+                if guards and not self._has_exit_guards(node, guards):
+                    continue          # the bound rests on range tests that are no longer there
                 c = self._contract_lin(lo, st)
                 if c is not None:
                     st.facts.add_ge(sym - c)
@@ -334,6 +338,16 @@ class KernelX(Kernel):
                 self.assumed_syms[s] = reason
                 break
         return Int(sym)
+
+    def _has_exit_guards(self, node, guards):
+        """Every guard text occurs as `if <guard>: return/raise/continue/break` (or as an elif of such a chain)
+        in the function, textually before `node`."""
+        have = set()
+        for n in walk_no_nested(self.fn):
+            if isinstance(n, ast.If) and n.lineno < getattr(node, 'lineno', 10**9) and n.body and \
+                    isinstance(n.body[-1], (ast.Return, ast.Raise, ast.Continue, ast.Break)):
+                have.add(unparse(n.test))
+        return all(any(a in have for a in ([g] if isinstance(g, str) else g)) for g in guards)
 
     def _contract_lin(self, txt, st):
         if txt is None:
